@@ -1,5 +1,5 @@
 """Run TLC and read back what it explored."""
-import os, re, shutil, subprocess, tempfile, time
+import os, signal, re, shutil, subprocess, tempfile, time
 
 SPEC_DIR = os.path.join(os.path.dirname(os.path.abspath(__file__)), "..", "..", "spec")
 JAR = "/opt/veriftools/tla/tla2tools.jar"
@@ -65,12 +65,17 @@ def run(module, cfg=None, env=None, workers=4, timeout=900, simulate=None, depth
     cmd += ["-config", cfg or (module + ".cfg"), module + ".tla"]
     t0 = time.time()
     try:
-        p = subprocess.run(cmd, cwd=spec_dir, env=e, stdout=subprocess.PIPE, stderr=subprocess.STDOUT,
-                           text=True, errors="replace", timeout=timeout)
-        r.rc = p.returncode; r.out = p.stdout
-    except subprocess.TimeoutExpired as ex:
-        r.timed_out = True; r.rc = -9
-        r.out = (ex.stdout.decode(errors="replace") if isinstance(ex.stdout, bytes) else (ex.stdout or ""))
+        # own process group: "tlc" is a wrapper script, and on a timeout the JVM behind it has to go as well
+        pr = subprocess.Popen(cmd, cwd=spec_dir, env=e, stdout=subprocess.PIPE, stderr=subprocess.STDOUT,
+                              text=True, errors="replace", start_new_session=True)
+        try:
+            out, _ = pr.communicate(timeout=timeout)
+            r.rc = pr.returncode; r.out = out
+        except subprocess.TimeoutExpired:
+            try: os.killpg(pr.pid, signal.SIGKILL)
+            except OSError: pass
+            out, _ = pr.communicate()
+            r.timed_out = True; r.rc = -9; r.out = out or ""
     finally:
         shutil.rmtree(md, ignore_errors=True)
     r.wall = time.time() - t0
